@@ -23,19 +23,30 @@ def shapes(tier):
     return out
 
 
-def base(kind, size, w, lat):
+def base(kind, size, w, lat, dll="j1939-21"):
     if kind == "cm":
-        sc = gen21.single(size, w[0], w[1], lat, lat, third=False)
+        sc = gen21.single(size, w[0], w[1], lat, lat, third=False, dll=dll)
     else:
-        sc = gen21.single(size, 1, 1, lat, lat, pf=0xFE, ps=0x55, third=False)
+        sc = gen21.single(size, 1, 1, lat, lat, pf=0xFE, ps=0x55, third=False, dll=dll)
     return sc
 
 
-def scenarios21(tier):
+def shapes22(tier):
+    sizes = [61, 121, 200, 360, 700] if tier == "quick" else [61, 120, 121, 180, 200, 260, 320, 380, 440, 500, 560, 620, 700]
+    wins = [(1, 1), (2, 2), (3, 3), (255, 255)] if tier == "quick" else [(1, 1), (2, 2), (3, 3), (255, 255), (2, 255), (255, 2)]
     out = []
-    for kind, size, w in shapes(tier):
-        for lat in ((1000,) if tier == "quick" else (1000, 0)):
-            sc0 = base(kind, size, w, lat)
+    for s in sizes:
+        for w in wins:
+            out.append(("cm", s, w))
+        out.append(("bam", s, (1, 1)))
+    return out
+
+
+def scenarios21(tier, dll="j1939-21"):
+    out = []
+    for kind, size, w in (shapes(tier) if dll == "j1939-21" else shapes22(tier)):
+        for lat in ((1000,) if tier == "quick" else ((1000, 0) if dll == "j1939-21" else (1000, 1))):
+            sc0 = base(kind, size, w, lat, dll)
             tr0, sim0 = scen.run(sc0)
             nfr = sim0.nframes
             follow = gen21.send(6_000_000, "A", 0x10, sc0["sends"][0]["pf"], sc0["sends"][0]["ps"], size + 1, salt=9)
@@ -73,11 +84,15 @@ def run(chk, replay):
     chk.model("MC_Tp21_c06.tla", "MC_Tp21_c06.cfg")
     if chk.tier != "quick":
         chk.model("MC_Tp21_c06b.tla", "MC_Tp21_c06b.cfg")
+    chk.model("MC_Tp22_c06q.tla" if chk.tier == "quick" else "MC_Tp22_c06.tla", "MC_Tp22_c06q.cfg" if chk.tier == "quick" else "MC_Tp22_c06.cfg")
     scs = scenarios21(chk.tier)
     traces = [scen.run(sc)[0] for sc in scs]
     chk.validate("Tp21Trace.tla", "Tp21Trace.cfg", traces, "l21", nontrivial=nontrivial)
+    scs2 = scenarios21(chk.tier, "j1939-22")
+    traces = [scen.run(sc)[0] for sc in scs2]
+    chk.validate("Tp22Trace.tla", "Tp22Trace.cfg", traces, "l22", nontrivial=nontrivial)
     chk.exhaustive = True
-    chk.extra["fault_points_enumerated"] = len(scs)
+    chk.extra["fault_points_enumerated"] = len(scs) + len(scs2)
 
 
 if __name__ == "__main__":
